@@ -566,7 +566,7 @@ class Harness(object):
                  'unk_pwd', 'dup', 'dup_int', 'unk_order', 'cur', 'cur_ctor', 'neg_init', 'unk_get_cash', 'unk_get_mv',
                  'unk_get_equity', 'unk_get_dict', 'early_sub', 'early_wd', 'early_txn', 'early_mark', 'neg_mark',
                  'p_neg_sub', 'p_neg_wd', 'p_over_wd', 'multi_unk_neg', 'lead_psub', 'lead_pwd', 'stale_update', 'dup_named',
-                 'stale_mark', 'early_mark_nan', 'neg_quote_update', 'zero_mark', 'unk_order_int']
+                 'stale_mark', 'early_mark_nan', 'neg_quote_update', 'zero_mark', 'unk_order_int', 'remark_same_stamp']
 
     BAD_CODES = ['XYZ', 'gbp', 'Eur', 'usd', 'CHF', '', 'US', 'USD ', None]
 
@@ -682,6 +682,15 @@ class Harness(object):
             a_, p_ = late[0]
             call = lambda: port.update_market_value_of_asset(a_, p_.current_price * 1.7 + 0.01, port.current_dt)
             self.flags.add('late_quote_older_than_last_mark')
+        elif kind == 'remark_same_stamp':
+            # the portfolio's clock has moved on (a deposit, a fill in another asset) since a position was last marked; a
+            # mark carrying that earlier mark's very timestamp again is earlier than the portfolio's clock: refused
+            old_ = [(a_, p_) for a_, p_ in port.pos_handler.positions.items() if p_.current_dt < port.current_dt]
+            if not old_:
+                return
+            a_, p_ = old_[0]
+            call = lambda: port.update_market_value_of_asset(a_, p_.current_price * 0.9 + 0.01, p_.current_dt)
+            self.flags.add('mark_repeating_the_previous_mark_time_after_the_clock_moved_on')
         elif kind == 'dup_int':
             if '1234' not in b.portfolios:
                 return
@@ -1209,6 +1218,12 @@ def make_machine(mode, rec, part):
             self._do(['clock', dd, list(tod)])
             if bad:
                 self._do(['bad', bad, p, 1.0])
+
+        @precondition(lambda self: self.h is not None and self.h.pids)
+        @rule(p=st.integers(0, 3), minutes=st.sampled_from([1, 30, 600]))
+        def deposit_then_mark_at_the_old_stamp(self, p, minutes):
+            self._do(['pdeposit', p, minutes, 1.0])
+            self._do(['bad', 'remark_same_stamp', p, 1.0])
 
         @rule(dd=st.sampled_from([0, 0, 1, 3, 28, 30, 31]), tod=st.sampled_from(OPEN_TODS))
         def clock_open(self, dd, tod):
